@@ -93,3 +93,241 @@ func GosymH_C08_file() {
 	}
 	gosym_Reach("done")
 }
+
+// GosymH_C08_flags: every open-flag combination on an existing or missing file: the open fails exactly for a
+// missing path without O_CREATE and for an existing target with O_CREATE|O_EXCL; O_TRUNC empties the file;
+// writes go to the end with O_APPEND and to the handle offset otherwise; a read-only handle cannot write and a
+// write-only handle cannot read.
+func GosymH_C08_flags() {
+	maxBlockSize = 2
+	kc := gosymNewKeep()
+	fs, _ := (&Collection{}).FileSystem(nil, kc)
+	exists := gosym_Fork("exists")
+	model := []byte{}
+	if exists {
+		f0, err := fs.OpenFile("f", os.O_CREATE|os.O_WRONLY, 0644)
+		gosym_Assert(err == nil, "setup")
+		model = gosym_Bytes("old", 3, "any")
+		f0.Write(model)
+		f0.Close()
+	}
+	acc := gosym_Choice("accmode", 3) // O_RDONLY, O_WRONLY, O_RDWR
+	flag := acc
+	app, creat, excl, trunc := gosym_Fork("O_APPEND"), gosym_Fork("O_CREATE"), gosym_Fork("O_EXCL"), gosym_Fork("O_TRUNC")
+	if app {
+		flag |= os.O_APPEND
+	}
+	if creat {
+		flag |= os.O_CREATE
+	}
+	if excl {
+		flag |= os.O_EXCL
+	}
+	if trunc {
+		flag |= os.O_TRUNC
+	}
+	readable, writable := acc != os.O_WRONLY, acc != os.O_RDONLY
+	f, err := fs.OpenFile("f", flag, 0644)
+	if !exists && !creat {
+		gosym_Assert(err != nil && os.IsNotExist(err), "open-missing-path-fails")
+		return
+	}
+	if exists && creat && excl {
+		gosym_Assert(err != nil, "open-existing-target-with-excl-fails")
+		return
+	}
+	if excl && !creat || trunc && !writable {
+		return // combinations POSIX leaves undefined / the implementation rejects: not part of the rule list
+	}
+	gosym_Assert(err == nil, "open-succeeds")
+	if err != nil {
+		return
+	}
+	if trunc {
+		model = model[:0]
+	}
+	data := gosym_Bytes("data", 2, "any")
+	n, werr := f.Write(data)
+	if !writable {
+		gosym_Assert(werr != nil && n == 0, "write-through-read-only-handle-fails")
+	} else {
+		gosym_Assert(werr == nil && n == 2, "write-through-writable-handle-succeeds")
+		if app {
+			model = append(model, data...)
+		} else {
+			for len(model) < 2 {
+				model = append(model, 0)
+			}
+			copy(model, data)
+		}
+	}
+	f.Seek(0, io.SeekStart)
+	buf := make([]byte, 8)
+	rn, rerr := f.Read(buf)
+	if !readable {
+		gosym_Assert(rerr != nil && rerr != io.EOF && rn == 0, "read-through-write-only-handle-fails")
+	} else {
+		all := buf[:rn]
+		for rerr == nil && rn > 0 {
+			rn, rerr = f.Read(buf[len(all):])
+			all = buf[:len(all)+rn]
+		}
+		gosym_Assert(len(all) == len(model) && gosym_BytesEq(all, model), "content-equals-model")
+	}
+	st, serr := fs.Stat("f")
+	gosym_Assert(serr == nil && st.Size() == int64(len(model)), "size-equals-model")
+	gosym_Reach("done")
+}
+
+type gosymEnt struct {
+	dir     bool
+	content string
+}
+
+// GosymH_C08_dirs: one mkdir / rename / remove on a small tree, every choice of names; afterwards every path's
+// existence, kind, size, content and every directory listing equal the model's, and the operation failed
+// exactly when the model says it must.
+func GosymH_C08_dirs() {
+	maxBlockSize = 2
+	kc := gosymNewKeep()
+	fs, _ := (&Collection{}).FileSystem(nil, kc)
+	model := map[string]gosymEnt{}
+	mkdir := func(p string) { gosym_Assert(fs.Mkdir(p, 0755) == nil, "setup"); model[p] = gosymEnt{dir: true} }
+	mkfile := func(p, c string) {
+		f, err := fs.OpenFile(p, os.O_CREATE|os.O_WRONLY, 0644)
+		gosym_Assert(err == nil, "setup")
+		f.Write([]byte(c))
+		f.Close()
+		model[p] = gosymEnt{content: c}
+	}
+	mkdir("d1")
+	mkdir("d1/sub")
+	mkdir("d2")
+	mkfile("f1", "ab")
+	mkfile("d1/g", "c")
+	mkdir("d3")
+	mkfile("d3/h", "d")
+	names := []string{"f1", "d1", "d2", "d3", "d1/g", "d1/sub", "d1/sub/x", "nx", "d2/f1", "nx/y", "d1/sub/d1", "d2/g", "d3/h"}
+	parent := func(p string) string {
+		for i := len(p) - 1; i >= 0; i-- {
+			if p[i] == '/' {
+				return p[:i]
+			}
+		}
+		return ""
+	}
+	isDir := func(p string) bool { return p == "" || model[p].dir }
+	exists := func(p string) bool { _, ok := model[p]; return ok || p == "" }
+	hasChildren := func(p string) bool {
+		for q := range model {
+			if len(q) > len(p) && q[:len(p)+1] == p+"/" {
+				return true
+			}
+		}
+		return false
+	}
+	op := gosym_Choice("op", 3)
+	a := names[gosym_Choice("a", len(names))]
+	var err error
+	mustFail, mayEither := false, false
+	switch op {
+	case 0:
+		err = fs.Mkdir(a, 0755)
+		mustFail = !exists(parent(a)) || !isDir(parent(a)) || exists(a)
+		if !mustFail {
+			model[a] = gosymEnt{dir: true}
+		}
+	case 1:
+		err = fs.Remove(a)
+		mustFail = !exists(a) || (isDir(a) && hasChildren(a))
+		if !mustFail {
+			delete(model, a)
+		}
+	case 2:
+		b := names[gosym_Choice("b", len(names))]
+		err = fs.Rename(a, b)
+		switch {
+		case !exists(a) || !exists(parent(b)) || !isDir(parent(b)):
+			mustFail = true // missing path
+		case a == b:
+			mayEither = true
+		case isDir(a) && len(b) > len(a) && b[:len(a)+1] == a+"/":
+			mustFail = true // directory moved into itself
+		case exists(b) && isDir(b) && !isDir(a):
+			mustFail = true // file renamed onto a directory
+		case exists(b) && (isDir(b) || isDir(a)):
+			mayEither = true // directory onto an existing name: not in the rule list
+		}
+		if !mustFail && !mayEither {
+			// move a (and everything below it) to b, replacing a file at b
+			moved := map[string]gosymEnt{}
+			for q, e := range model {
+				if q == a {
+					moved[b] = e
+				} else if len(q) > len(a) && q[:len(a)+1] == a+"/" {
+					moved[b+q[len(a):]] = e
+				} else if q != b {
+					moved[q] = e
+				}
+			}
+			model = moved
+		}
+	}
+	if mayEither {
+		gosym_Reach("unspecified-case")
+		return
+	}
+	gosym_Assert((err != nil) == mustFail, "operation-fails-exactly-when-the-model-says")
+	// compare the whole tree with the model
+	for _, p := range names {
+		st, serr := fs.Stat(p)
+		e, ok := model[p]
+		gosym_Assert((serr == nil) == ok, "path-existence-equals-model")
+		if serr == nil && ok {
+			gosym_Assert(st.IsDir() == e.dir, "path-kind-equals-model")
+			if !e.dir {
+				gosym_Assert(st.Size() == int64(len(e.content)), "file-size-equals-model")
+				f, oerr := fs.Open(p)
+				gosym_Assert(oerr == nil, "file-opens")
+				if oerr == nil {
+					buf := make([]byte, 4)
+					n, _ := f.Read(buf)
+					gosym_Assert(string(buf[:n]) == e.content, "file-content-equals-model")
+				}
+			}
+		}
+	}
+	for _, d := range []string{"", "d1", "d2", "d3", "d1/sub"} {
+		if d != "" && !model[d].dir {
+			continue
+		}
+		if _, ok := model[d]; !ok && d != "" {
+			continue
+		}
+		name := d
+		if name == "" {
+			name = "."
+		}
+		f, oerr := fs.Open(name)
+		gosym_Assert(oerr == nil, "directory-opens")
+		if oerr != nil {
+			continue
+		}
+		fis, _ := f.Readdir(-1)
+		want := 0
+		for q := range model {
+			if parent(q) == d {
+				want++
+				found := false
+				for _, fi := range fis {
+					if d == "" && fi.Name() == q || d != "" && d+"/"+fi.Name() == q {
+						found = true
+					}
+				}
+				gosym_Assert(found, "directory-listing-contains-model-entry")
+			}
+		}
+		gosym_Assert(len(fis) == want, "directory-listing-size-equals-model")
+	}
+	gosym_Reach("done")
+}
